@@ -357,6 +357,8 @@ func Check(res *Result) *ReadBack {
 		case w == nil:
 			if res.RefusedRefs[q.Ref] && got != nil {
 				fail(SigTrace, "the call that was to write %v was refused (%v), yet the file has an object under that number: %s", q.Ref, res.RefusedText, pdf.AsString(got))
+			} else if res.UnsureRefs[q.Ref] {
+				// refused, and the number may belong to an object the Writer made for itself
 			} else if _, user := gens[q.Ref.Number()]; (user || q.Mode == 'v') && got != nil {
 				fail("unwritten-not-null", "%v was never written (under this generation) and reads %s", q.Ref, pdf.AsString(got))
 			}
@@ -434,10 +436,20 @@ func SortedFails(fs []Failure) []Failure {
 
 // Describe renders a program for a replay file.
 func (res *Result) Describe() map[string]any {
+	cut := func(s string, n int) string {
+		if len(s) > n {
+			return s[:n] + fmt.Sprintf("...(%d more characters)", len(s)-n)
+		}
+		return s
+	}
+	ops := make([]string, len(res.Desc))
+	for i, d := range res.Desc {
+		ops[i] = cut(d, 3000)
+	}
 	return map[string]any{
-		"config": res.Cfg.String(),
-		"ops":    res.Desc,
+		"config":  res.Cfg.String(),
+		"ops":     ops,
 		"refused": res.RefusedText,
-		"case":   res.CaseLine(),
+		"case":    cut(res.CaseLine(), 400000),
 	}
 }
